@@ -279,14 +279,16 @@ Definition unknown_uri_is_400_statement : Prop :=
     mem_str uri svc_process_uris = false -> mem_str uri svc_serve_uris = false ->
     serve svc_parameter_types rq = Err "unknown uri".
 
-(** * Never a panic - outside three input classes *)
+(** * Never a panic *)
 
-(** The closest true statement to "never a panic": ServeHTTP panics only on
-    the input classes of D24 (empty body), D25 (non-string uri) and D61 (empty
-    text of a json-typed parameter), as decided on the abstract request. *)
-Definition serve_panics_only_on_known_classes_statement : Prop :=
-  forall rq w, serve svc_parameter_types rq = Panic w ->
-               in_D24 rq = true \/ in_D25 rq = true \/ in_D61 rq = true.
+(** ServeHTTP (up to the System calls) never panics, on ANY abstract request
+    (after the repairs of D24, D25 and D61). *)
+Definition serve_never_panics_statement : Prop :=
+  forall rq w, serve svc_parameter_types rq <> Panic w.
+
+(** An empty body, or an empty text of a json-typed parameter, is a 400. *)
+Definition empty_inputs_are_400_statement : Prop :=
+  forall rq, in_D24 rq = true \/ in_D61 rq = true -> exists e, serve svc_parameter_types rq = Err e.
 
 (** * Clauses the faithful model refutes (kept as findings) *)
 
@@ -301,8 +303,8 @@ Definition rq_D24 : request :=
   {| rq_method := "POST"; rq_path := "/api/loc/facts/add";
      rq_query := Some [("fact", txt_obj "{""a"":1}" [("a", JNum 1)]); ("location", txt "here")];
      rq_body := empty_body |}.
-Definition empty_body_panics_counterexample_statement : Prop :=
-  in_D24 rq_D24 = true /\ exists w, serve svc_parameter_types rq_D24 = Panic w.
+Definition empty_body_is_400_statement : Prop :=
+  in_D24 rq_D24 = true /\ serve svc_parameter_types rq_D24 = Err "empty body".
 
 (** D25: POST /api/loc/facts/add with the JSON body {"fact":{"a":1},"location":"here","uri":5} *)
 Definition rq_D25 : request :=
@@ -313,9 +315,9 @@ Definition rq_D25 : request :=
 Definition rq_D25_batch : request :=
   {| rq_method := "POST"; rq_path := "/api/sys/util/batch"; rq_query := Some [];
      rq_body := json_text_body "{""requests"":[{""uri"":5}]}" [("requests", JArr [JObj [("uri", JNum 5)]])] |}.
-Definition nonstring_uri_panics_counterexample_statement : Prop :=
-  in_D25 rq_D25 = true /\ (exists w, serve svc_parameter_types rq_D25 = Panic w) /\
-  in_D25 rq_D25_batch = true /\ (exists w, serve svc_parameter_types rq_D25_batch = Panic w).
+Definition nonstring_uri_is_error_statement : Prop :=
+  in_D25 rq_D25 = true /\ serve svc_parameter_types rq_D25 = Err "need a string uri" /\
+  in_D25 rq_D25_batch = true /\ serve svc_parameter_types rq_D25_batch = Ok (ABatch [BErr "need a string uri"]).
 (** the envelopes do check: the same member in an /api/json body is a 400 *)
 Definition rq_env_nonstring : request :=
   {| rq_method := "POST"; rq_path := "/api/json"; rq_query := Some [];
@@ -327,8 +329,8 @@ Definition envelope_nonstring_uri_is_400_statement : Prop :=
 Definition rq_D61 : request :=
   {| rq_method := "GET"; rq_path := "/api/loc/facts/add";
      rq_query := Some [("fact", txt ""); ("location", txt "here")]; rq_body := empty_body |}.
-Definition empty_typed_param_panics_counterexample_statement : Prop :=
-  in_D61 rq_D61 = true /\ exists w, serve svc_parameter_types rq_D61 = Panic w.
+Definition empty_typed_param_is_400_statement : Prop :=
+  in_D61 rq_D61 = true /\ serve svc_parameter_types rq_D61 = Err "unknown syntax".
 
 (** D62: the composite operations throw the results of their inner requests
     away: take without a pattern does nothing and reports success; replace
@@ -356,12 +358,12 @@ Definition rq_uri_override : request :=
      rq_body := json_text_body "{...}" [("id", JStr "f1"); ("location", JStr "here"); ("uri", JStr "/api/loc/facts/rem")] |}.
 Definition body_uri_overrides_path_counterexample_statement : Prop :=
   serve svc_parameter_types rq_uri_override = Ok (ASingle (PCall "RemFact" [JStr "here"; JStr "f1"] false)).
-(** (b) A form body without parameters is an empty body (D24). *)
+(** (b) A form body without parameters is an empty body: a 400. *)
 Definition empty_form_counterexample_statement : Prop :=
   forall P, pr_form P [] = "" ->
-    exists w, serve svc_parameter_types
-                (render P {| lr_uri := "/api/loc/admin/size"; lr_params := [] |}
-                        {| e_kind := EForm; e_prefix := PAsIs; e_yaml_params := false |}) = Panic w.
+    serve svc_parameter_types
+          (render P {| lr_uri := "/api/loc/admin/size"; lr_params := [] |}
+                  {| e_kind := EForm; e_prefix := PAsIs; e_yaml_params := false |}) = Err "empty body".
 (** (c) A map under a name that parameterTypes does not declare stays a text
         in a query string: the getter rejects it, while a JSON body works. *)
 Definition undeclared_map_param_counterexample_statement : Prop :=
